@@ -201,8 +201,13 @@ GeoStep(q) ==
   IN [bad |-> integral \cup total \cup mono \cup zero \cup deriv]
 
 \* q: [P, N (rationals), qp (rational query), lns (decimal ln of every PiPoint log argument, in order), pi (observed)]
+\* The integral is a property of the SET of measured points of the branch: the storage order (a desorption
+\* branch is recorded from the highest pressure downwards) is irrelevant.  q.P / q.N arrive in stored order.
+ByPressure(P, N) == LET idx == SortSeq([i \in 1..Len(P) |-> i], LAMBDA i, j : RLt(P[i], P[j]))
+                    IN [P |-> [i \in 1..Len(P) |-> P[idx[i]]], N |-> [i \in 1..Len(P) |-> N[idx[i]]]]
 PtStep(q) ==
-  LET s == PiPoint(q.P, q.N, q.qp)
+  LET srt == ByPressure(q.P, q.N)
+      s == PiPoint(srt.P, srt.N, q.qp)
       terms == [i \in 1..Len(s.logs) |-> DMul(DFromRat(s.logs[i].c), q.lns[i])]
       expected == DAdd(DFromRat(s.rat), DSumF(LAMBDA i : terms[i], 1, Len(s.logs)))
       scale == DAdd(DAbs(DFromRat(s.rat)), DSumF(LAMBDA i : DAbs(terms[i]), 1, Len(s.logs)))
